@@ -363,6 +363,7 @@ pub fn run_seed(prop: &str, seed: u64, thorough: bool, record: Option<&str>) -> 
     let n_users = sw.n_users;
     let n_enc = sw.n_encryptors;
     let n_events = sw.n_events;
+    let (big_ids, long_names) = (sw.big_ids, sw.long_names);
     let mut gen = Gen::new(prop, sw);
     gen.thorough = thorough;
     let mut runner = match Runner::new(prop, seed, n_users, n_enc) {
@@ -378,6 +379,12 @@ pub fn run_seed(prop: &str, seed: u64, thorough: bool, record: Option<&str>) -> 
             use std::io::Write;
             let _ = writeln!(f, "{}", serde_json::json!({"header": {"property": prop, "features": wire::FEATURES, "seed": seed, "n_users": n_users, "n_encryptors": n_enc}}));
         }
+    }
+    if big_ids {
+        runner.world.stats.probe("swarm-attribute-ids-above-127");
+    }
+    if long_names {
+        runner.world.stats.probe("swarm-names-of-128-bytes-or-more");
     }
     for ev in gen.prelude(&mut rng) {
         runner.apply(&ev);
